@@ -514,10 +514,24 @@ func (s *Stage) Recover() {
 				oldest = info.ModTime()
 			}
 			base := strings.TrimSuffix(path, compExt)
-			if _, err = os.Stat(base + waitExt); !os.IsNotExist(err) {
+			if info, err := os.Stat(base + waitExt); !os.IsNotExist(err) {
 				// .wait
 				s.logDebug("Found ready to finalize:", cmp.Name)
-				finalize = append(finalize, cmp)
+				if hash, err := fileutil.FileMD5(base + waitExt); err == nil && hash != cmp.Hash && info != nil {
+					// The companion already describes a newer version of this
+					// file that is being received; the validated file is an
+					// earlier version and must not take on that identity
+					s.logInfo("Found validated earlier version:", cmp.Name, hash)
+					finalize = append(finalize, &sts.Partial{
+						Name:    cmp.Name,
+						Renamed: cmp.Renamed,
+						Size:    info.Size(),
+						Hash:    hash,
+						Source:  cmp.Source,
+					})
+				} else {
+					finalize = append(finalize, cmp)
+				}
 			} else if _, err = os.Stat(base + fullExt); !os.IsNotExist(err) {
 				// .full
 				s.logDebug("Found ready to validate:", cmp.Name)
